@@ -136,7 +136,8 @@ pub fn generate_for(prop: &str, seed: u64, n: usize, _thorough: bool, _corpus: O
     for m in crate::corpus_models::models() { out.push(one(&m, "corpus", prop)); }
     for i in 0..n {
         let (tag, cfg) = &cfgs[i % cfgs.len()];
-        let (m, _) = gen_model::model(&mut r, cfg);
+        // every ninth case: the exact min/max family (dominated operand in front of retained ones)
+        let (m, tag) = if i % 9 == 8 { (gen_model::extreme_model(&mut r).0, &"extreme") } else { (gen_model::model(&mut r, cfg).0, tag) };
         let c = one(&m, tag, prop);
         // the same model through the COMPOSED model (bounds port + linearizer port), every third case
         if i % 3 == 0 {
